@@ -164,7 +164,12 @@ func c06Walk(c *vh.Ctx, spec *core.Spec, cs walkCase) {
 		b := [5]string{snap.Of(st), snap.Of(pend), snap.Of(spec), snap.Of(ctl), snap.Of(props)}
 		var w *core.Walked
 		var err error
-		if p, msg, where := vh.Trap(func() { w, err = spec.Walk(context.Background(), st, pend, ctl, props) }); p {
+		ctx, cancel := context.WithCancel(context.Background())
+		defer cancel()
+		if cs.CtxEnded {
+			cancel()
+		}
+		if p, msg, where := vh.Trap(func() { w, err = spec.Walk(ctx, st, pend, ctl, props) }); p {
 			return "PANIC", "panic", []string{"panic/" + where + ": " + msg}
 		}
 		a := [5]string{snap.Of(st), snap.Of(pend), snap.Of(spec), snap.Of(ctl), snap.Of(props)}
@@ -212,7 +217,7 @@ func c06Walk(c *vh.Ctx, spec *core.Spec, cs walkCase) {
 		}
 		c.Violation("C06/walk/"+keyOf(b)+"/"+sit, fmt.Sprintf("Spec.Walk: %s (walk %s)", b, sit), cs)
 	}
-	if k1 != "PANIC" {
+	if k1 != "PANIC" && !cs.CtxEnded { // (with an ended context a script may or may not be interrupted before it ends)
 		if k2, _, _ := run(); k1 != k2 {
 			c.Violation("C06/walk/repeat-differs/"+sit, fmt.Sprintf("two identical Walk calls differ:\n%s\n%s", k1, k2), cs)
 		}
@@ -249,10 +254,13 @@ func C06(c *vh.Ctx) {
 		}
 		return
 	}
-	c.Rule("the C04 step space (quick vocabulary; in the quick tier every twenty-ninth two-branch list) and the C05 walk space (quick templates; in the quick tier every sixth spec, sequences up to the bound, limits {0,2,100}, breakpoints; plus message slices with nil entries) re-executed with deep snapshots (reflect, incl. unexported fields) of state, messages, spec, control and props before/after each call, map-identity checks on every returned state, and two identical calls compared (ECMAScript nodes also in a specification that was never compiled and in one whose sources arrived after Compile); plus a retry family: ECMAScript actions and guards that try to remember something outside their result (globals, built-in prototypes, members of the built-in objects, the properties object, also before failing) are walked several times with equal inputs, for one machine and for many machines in turn, with nil / empty / populated step properties - every attempt must give the result of the first; plus states and messages holding collections of Go types a JSON decoder does not produce ([]string, map[string]string, []int, slices of maps, a pointer to a struct), with nothing else structured beside them, handed to action and guard scripts that write into them; non-trivial = the step/walk did something other than stay / finish normally.")
+	c.Rule("the C04 step space (quick vocabulary; in the quick tier every second single-branch list and every twenty-ninth two-branch list) and the C05 walk space (quick templates; in the quick tier every sixth spec, sequences up to the bound, limits {0,2,100}, breakpoints; plus message slices with nil entries, plus walks called with a context that has already ended) re-executed with deep snapshots (reflect, incl. unexported fields) of state, messages, spec, control and props before/after each call, map-identity checks on every returned state, and two identical calls compared (ECMAScript nodes also in a specification that was never compiled and in one whose sources arrived after Compile); plus a retry family: ECMAScript actions and guards that try to remember something outside their result (globals, built-in prototypes, members of the built-in objects, the properties object, also before failing) are walked several times with equal inputs, for one machine and for many machines in turn, with nil / empty / populated step properties - every attempt must give the result of the first; plus states and messages holding collections of Go types a JSON decoder does not produce ([]string, map[string]string, []int, slices of maps, a pointer to a struct), with nothing else structured beside them, handed to action and guard scripts that write into them; non-trivial = the step/walk did something other than stay / finish normally.")
 	forEachStepCase(c, false, func(spec *core.Spec, cs stepCase, li int) {
 		if c.Quick() && len(cs.Spec.Nodes["n0"].Branches) == 2 && li%29 != 0 {
-			return // quick: no / single-branch lists in full, every twenty-ninth two-branch list
+			return // quick: every twenty-ninth two-branch list
+		}
+		if c.Quick() && len(cs.Spec.Nodes["n0"].Branches) == 1 && li%2 != 0 {
+			return // quick: every second single-branch list (the lists differ in one of pattern / guard / target from their neighbours)
 		}
 		if c.Quick() && cs.Setup != "" && li >= 0 && li%29 != 0 {
 			return // quick: differently prepared specification objects for every twenty-ninth list
@@ -284,9 +292,8 @@ func C06(c *vh.Ctx) {
 	c.Bound("walk_message_sequence_max", maxLen)
 	var wi int
 	forEachWalkSpec(c, false, func(as *rstep.ASpec, spec *core.Spec) {
-		if editsInPlace(as) {
-			return // an action that edits its input edits the caller's state: action behaviour, not the engine's
-		}
+		// (specifications with a native action that edits the bindings it is given in place are included: the engine
+		// hands an action a copy, so that not even such an action reaches the caller's state)
 		wi++
 		if c.Quick() && wi%6 != 0 {
 			return // quick: every sixth spec of this worker's share
@@ -298,6 +305,10 @@ func C06(c *vh.Ctx) {
 		}
 		for _, st := range walkStarts {
 			for _, sq := range all {
+				if len(sq) <= 1 {
+					// a caller whose context has already ended: whatever Walk makes of that, the arguments are the caller's
+					c06Walk(c, spec, walkCase{Spec: as, Node: st.Node, Bs: st.Bs, Msgs: sq, Limit: 100, CtxEnded: true})
+				}
 				for _, lim := range []int{0, 2, 100} {
 					for _, bp := range []string{"", "n1"} {
 						if bp != "" && lim != 100 {
